@@ -489,11 +489,45 @@ def cli_shard(args):
     seed, n = args
     rng = random.Random(seed)
     agg = Agg()
+    import shutil
+    import tempfile
+    import genast
+    import genprog
+    import genrmkey
+    from checks.c05 import fancy
+    os.makedirs(common.SCRATCH, exist_ok=True)
+    scratch = tempfile.mkdtemp(dir=common.SCRATCH, prefix="c01cli")
     for i in range(n):
         family, data = genbytes.gen_input(rng)
+        k = rng.random()
+        if k < 0.12:
+            # structured programs (objects with every visibility / inheritance / computed fields) so that the output modes
+            # that walk the top-level value (-m, -y) see more than literals
+            g = genprog.Gen(rng, depth=rng.choice([2, 3]), obj_heavy=True)
+            family, data = "genprog_object", genast.render(g.O(g.depth, [], False), "min")[0]
+        elif k < 0.24:
+            v = {n_: common.rand_value(rng, 1, 3) for n_ in rng.sample(["a", "b.json", "c d", "e", "f"], rng.randint(0, 4))}
+            family, data = "fancy_object", fancy(v, rng).encode("utf-8")
+        elif k < 0.32:
+            h = genrmkey.gen(rng)
+            head, root = genrmkey.render(h)
+            family, data = "history_object", (head + root).encode("utf-8")
+        elif k < 0.38:
+            v = [common.rand_value(rng, 1, 3) for _ in range(rng.randint(0, 3))]
+            family, data = "fancy_array", fancy(v, rng).encode("utf-8")
+        if k < 0.38 and rng.random() < 0.3:
+            data = b"function(p=1) " + data
         if b"\x00" in data and rng.random() < 0.5:
             data = data.replace(b"\x00", b" ")
         argv = []
+        if k < 0.38 or rng.random() < 0.15:
+            r2 = rng.random()
+            if r2 < 0.45:
+                mdir = os.path.join(scratch, "m%d" % i)
+                os.mkdir(mdir)
+                argv += ["-m", mdir]
+            elif r2 < 0.6:
+                argv += ["-o", os.path.join(scratch, "o%d.json" % i)]
         if rng.random() < 0.3:
             argv += ["-s", str(rng.choice([0, 1, 5, 50, 500, 5000]))]
         if rng.random() < 0.3:
@@ -528,9 +562,11 @@ def cli_shard(args):
         agg.evaluations += 1
         agg.nontrivial.add(common.h64(data, " ".join(argv)))
         cli_verdict(agg, rc, out, err, {"argv": full, "stdin": data[:300].decode("latin-1")}, replay, family)
+        agg.add("cli_families", (family, "-m" in argv, "-y" in argv, "-S" in argv))
         if i < 2:
             agg.sample({"leg": "cli", "argv": full, "stdin": data[:100].decode("latin-1"), "exit": rc,
                         "stderr": err[:160].decode("utf-8", "replace")})
+    shutil.rmtree(scratch, ignore_errors=True)
     return agg
 
 
@@ -641,7 +677,8 @@ def run(tier, seed):
     rule = ("byte-level inputs (random bytes, token soup, mutated ui-tests corpus) loaded/evaluated/manifested in "
             "evalsrv under catch_unwind (1/3 of failing inputs again through Session to see the rendered "
             "diagnostic); every std function x argument tuples from a boundary pool; a sample through the release "
-            "CLI with random flags/ext vars/TLAs; whole programs from the other checks' generators (objectRemoveKey/inheritance "
+            "CLI with random flags/ext vars/TLAs and every output mode (-S, -y, -m, -o) on byte-level inputs and on generated objects "
+            "(all visibilities, inheritance, computed fields, construction histories, function roots); whole programs from the other checks' generators (objectRemoveKey/inheritance "
             "histories consumed by 28 builtins and manifesters, programs with an injected scoping fault, binders renamed to a "
             "small pool, the binder matrix of C09) evaluated for the outcome class; nesting towers of every recursive construct through the CLI; thorough tier: the "
             "byte-level workload again on an ASan/LSan build, and a coverage-guided libFuzzer campaign (ASan, debug assertions, "
